@@ -161,7 +161,7 @@ fn stub_from_utf8(v: &[u8]) -> Result<&str, core::str::Utf8Error> {
     Ok(unsafe { core::str::from_utf8_unchecked(v) })
 }
 
-// @harness props=C17 tier=quick panic=forbid kflags=-Z~stubbing
+// @harness props=C17,C05 tier=quick panic=forbid kflags=-Z~stubbing
 // @encodes CommandLineTag::cmdline with core::str::from_utf8 stubbed to accept (NUL / extent half only), memchr word-at-a-time path included
 // @bound text area of 0..=24 bytes; UTF-8 verdict outside this harness
 // @assume stub: core::str::from_utf8 always answers Ok (a Utf8Error cannot be constructed outside core)
@@ -172,7 +172,7 @@ pub fn c17_parse_cmdline_24_nul_half() {
     parse_kind(1, 24, false);
 }
 
-// @harness props=C17 tier=quick panic=forbid kflags=-Z~stubbing
+// @harness props=C17,C05 tier=quick panic=forbid kflags=-Z~stubbing
 // @encodes BootLoaderNameTag::name ModuleTag::cmdline with core::str::from_utf8 stubbed to accept (NUL / extent half only)
 // @bound text area of 0..=24 bytes for both kinds; UTF-8 verdict outside this harness
 // @assume stub: core::str::from_utf8 always answers Ok (a Utf8Error cannot be constructed outside core)
